@@ -1,4 +1,4 @@
-use rusty_bit_vec::{MAX_INTEGER, MAX_LONG};
+use rusty_bit_vec::MAX_INTEGER;
 use rusty_parser::BuiltInFunction;
 use rusty_variant::{Variant, VariantError};
 
@@ -72,21 +72,10 @@ fn val(s: &str) -> Result<Variant, VariantError> {
         }
     }
 
+    // VAL is a DOUBLE function: the result has that type also for whole numbers
+    // (a DOUBLE variable must not end up holding an INTEGER or a LONG)
     if state == STATE_INITIAL || state == STATE_SIGN {
-        Ok(Variant::VInteger(0))
-    } else if state == STATE_INT || state == STATE_DOT {
-        if is_positive && value <= MAX_INTEGER as f64 {
-            Ok(Variant::VInteger(value as i32))
-        } else if !is_positive && value <= (1 + MAX_INTEGER) as f64 {
-            Ok(Variant::VInteger(-value as i32))
-        } else if is_positive && value <= MAX_LONG as f64 {
-            Ok(Variant::VLong(value as i64))
-        } else if !is_positive && value <= (1 + MAX_LONG) as f64 {
-            Ok(Variant::VLong(-value as i64))
-        } else {
-            let x = Variant::VDouble(value);
-            if is_positive { Ok(x) } else { x.negate() }
-        }
+        Ok(Variant::VDouble(0.0))
     } else {
         let x = Variant::VDouble(value);
         if is_positive { Ok(x) } else { x.negate() }
